@@ -669,3 +669,74 @@ def c03_r5(ctx):
                   f"the method template uses the fixed name `{name}` ({kind}) but an operation variable `${name}` yields a parameter of the same name: "
                   + ("duplicate parameter -> SyntaxError in client.py" if name in ("self", "kwargs") else "the parameter shadows the helper and `gql(...)` calls the argument"),
                   gv.loc(), okmsg=f"fixed template name {name} protected")
+
+
+# ====================================================================== Optional / Annotated nesting (shape)
+def _walk_anc(v, anc=()):
+    yield v, anc
+    for c in v.children():
+        yield from _walk_anc(c, anc + (v,))
+
+
+def _is_sub_of(n, head: str) -> bool:
+    return isinstance(n, Node) and n.kind == "Subscript" and isinstance(n.get("value"), Node) and is_lit(n.get("value").get("id"), head)
+
+
+def _first_of_tuple(v):
+    from ..shape import Seq
+    if isinstance(v, Seq) and v.items:
+        return v.items[0]
+    if isinstance(v, Node) and v.kind == "Tuple":
+        its = seq_items(v.get("elts"))
+        return its[0] if its else v
+    return v
+
+
+_SCALAR_HELPERS = {"client_generators.scalars:generate_result_scalar_annotation", "client_generators.scalars:generate_input_scalar_annotation"}
+
+
+def _optional_nesting(ctx, fi, side: str, wrapper: str):
+    sh = Shaper(ctx.repo, inline=set(_SCALAR_HELPERS))
+    seen_annotated = 0
+    for nl in (True, False):
+        v = sh.call_function(fi, {"nullable": Lit(nl)})
+        tops = [_first_of_tuple(a) for a in alts(v)]
+        tops = [t for a in tops for t in alts(a)]
+        tops = [t for t in tops if isinstance(t, Node)]
+        if len(tops) < 3:
+            raise AnalysisError(f"{fi.qualname}: emitted annotation shapes not found")
+        wrong = [repr(t)[:160] for t in tops if _is_sub_of(t, "Optional") != nl]
+        ctx.check(not wrong, key(fi, f"top-level Optional, nullable={nl}"),
+                  f"with nullable={nl} the {side} annotation is {'not ' if nl else ''}Optional[...] at top level: {wrong[:2]}; the default / required-ness logic and pydantic's None handling look at the outermost subscript",
+                  fi.loc(), okmsg=f"{fi.qualname}(nullable={nl}): {len(tops)} shapes, {'all' if nl else 'none'} Optional[...] at top level")
+        bad = []
+        for t in tops:
+            for n, anc in _walk_anc(t):
+                if not _is_sub_of(n, "Annotated"):
+                    continue
+                calls = [c for c in nodes(n, "Call") if isinstance(c.get("func"), Node) and is_lit(c.get("func").get("id"), wrapper)]
+                if not calls:
+                    continue  # e.g. Annotated[Union[...], Field(discriminator=...)]
+                seen_annotated += 1
+                inner_opt = [x for x in nodes(n.get("slice"), "Name") if is_lit(x.get("id"), "Optional")]
+                if inner_opt:
+                    bad.append(f"Annotated[Optional[...], {wrapper}(...)]: None is handed to the user's function")
+                if nl and not any(_is_sub_of(a, "Optional") for a in anc):
+                    bad.append(f"nullable position is not Optional[Annotated[T, {wrapper}(f)]]")
+        ctx.check(not bad, key(fi, f"Optional outside Annotated, nullable={nl}"),
+                  f"{side} custom scalar, nullable={nl}: {sorted(set(bad))}. With the Optional inside the Annotated the {wrapper} runs for null as well (parse / serialize called with None), "
+                  "and code that looks for a top-level Optional[...] (default = None on the introspection path) no longer sees one", fi.loc(),
+                  okmsg=f"{fi.qualname}(nullable={nl}): {wrapper} wrapper innermost, Optional outside it")
+    if seen_annotated < 2:
+        raise AnalysisError(f"{fi.qualname}: no Annotated[T, {wrapper}(...)] shape found (rule would be vacuous)")
+
+
+@rule("C07.R4", "result side: a nullable custom scalar is Optional[Annotated[T, BeforeValidator(parse)]] - parse never sees null (emitted shapes)", min_instances=4, also=["C01", "C05"])
+def c07_r4(ctx):
+    _optional_nesting(ctx, ctx.repo.func(RF + "parse_scalar_type"), "result", "BeforeValidator")
+
+
+@rule("C07.R5", "input side: a nullable custom scalar is Optional[Annotated[T, PlainSerializer(serialize)]] - serialize never sees None (emitted shapes)", min_instances=4,
+      also=["C03", "C06", "C19"])
+def c07_r5(ctx):
+    _optional_nesting(ctx, ctx.repo.func(IF + "parse_input_field_type"), "input", "PlainSerializer")
